@@ -18,6 +18,7 @@ from jsonpath.function_extensions.filter_function import FilterFunction
 from .exceptions import JSONPathSyntaxError
 from .exceptions import JSONPathTypeError
 from .filter import CURRENT_KEY
+from .filter import CurrentKey
 from .filter import FALSE
 from .filter import NIL
 from .filter import TRUE
@@ -624,7 +625,9 @@ class Parser:
         )
 
     def parse_current_key(self, _: TokenStream) -> FilterExpression:
-        return CURRENT_KEY
+        if self.env.key_token == CURRENT_KEY.token:
+            return CURRENT_KEY
+        return CurrentKey(token=self.env.key_token)
 
     def parse_filter_context_path(self, stream: TokenStream) -> FilterExpression:
         stream.next_token()
